@@ -325,8 +325,8 @@ pub unsafe fn copy_nonoverlapping(src: &[u8], dst: &mut [u8], len: usize) {
 ///
 /// # Safety
 /// mid must be <= slice.len()
-//@ #[verifier::external_body]
 #[cfg(feature = "autocomplete")]
+//@ #[verifier::external_body]
 pub unsafe fn split_at_mut(buf: &mut [u8], mid: usize) -> (&mut [u8], &mut [u8]) {
 //@ requires mid <= old(buf)@.len(),   // documented safety condition  [C03]
 //@ ensures r.0@ == old(buf)@.subrange(0, mid as int), r.1@ == old(buf)@.subrange(mid as int, old(buf)@.len() as int),
